@@ -127,7 +127,7 @@ theorem decompressFrame_serializedFrom (rep0 : Rep.R) (hpos : RepPos rep0) (a : 
       L = .ok (ip0 + H + S, C + r, out0 ++ x, ent2, bl, none) := by
     rw [← hloop, Std.Legacy.Range.forIn_eq_forIn_range', ← hSn]
     refine blocks_loop2 src dict.content x out0 cap hd.blockSizeMax (C + r) _ hbsm ?raw ?rle ?cmp hcap bs2 _ 0 (ip0 + H) _ out0 dict.ent #[]
-      rep0 (by rw [ByteArray.extract_same, ByteArray.append_empty]) hne ?len (by rw [gbsm]; exact htl) hrep0 hpos
+      rep0 none (by rw [ByteArray.extract_same, ByteArray.append_empty]) hne ?len (by rw [gbsm]; exact htl) hrep0 hpos trivial
       (by rw [← hHn, ← size_ofList]; exact hsrc.right.left) (by omega)
     case len => simp only [List.length_range', Std.Legacy.Range.size]; omega
     case raw =>
@@ -349,8 +349,11 @@ ZSTD_compress_insertDictionary), and EVERY tiling of `x` into raw / RLE / compre
 `D.content ++ (frame content so far)` - matches may reach into the dictionary, and the first sequences may use the dictionary's
 repeat offsets, since the serializer starts its history at them (`serializeFrameDict`) - ZSTD_decompress_usingDict
 (`Frame.decompressAll … D cap o`) returns exactly `x`, for every capacity that can hold it.
-(Scope of the block writer as in `BlockRT.frame_roundtrip_compressed`: tables predefined / RLE, literals raw / RLE / Huffman-direct;
-the dictionary's entropy tables are loaded by the decoder but not referenced by these frames.) -/
+(Scope of the block writer as in `BlockRT.frame_roundtrip_compressed`: each sequence table predefined / RLE / described by
+FSE_writeNCount (`set_compressed`) / repeated from the previous block WITH SEQUENCES OF THE SAME FRAME (`set_repeat`; the block list
+starts with `prev = none`), literals raw / RLE / Huffman-direct.  The dictionary's own entropy tables are loaded by the decoder
+(`EntMatch none` claims nothing about them) but never referenced by these frames: repeating the DICTIONARY's tables in the first
+block, and treeless literals, are not produced by this writer.) -/
 theorem dict_roundtrip (d : Bytes) (D : Frame.Dict) (hload : Dict.loadD d = .ok D)
     (a : HArgs) (bs : List BlockChoice2) (x : ByteArray) (hok : FrameOKFrom D.content D.id (dictRep D) a bs x)
     (cap : Nat) (hcap : x.size ≤ cap) (o : Frame.Opts) (hml : o.magicless = false) (hmb : o.maxBlockSize = 0) :
@@ -450,7 +453,7 @@ theorem demo_load : Dict.loadD demoDict = .ok demoD := by
   rfl
 
 theorem demo_tiles : Tiles2 demoDict 1024 demoX demoBlocks 0 repStart := by
-  simp only [demoBlocks, Tiles2, BlockRT.LitOK, BlockRT.CodesOK, BlockRT.okOf]
+  simp only [demoBlocks, Tiles2, BlockRT.LitOK]
   decide +kernel
 
 theorem demo_ok (ck : Bool) (id : Nat) (hid : id < 2 ^ 32) :
@@ -529,7 +532,7 @@ theorem fmt_load : ∃ D, Dict.loadD fmtDict = .ok D ∧ D.id = 77 ∧ D.content
 example : (BlockEnc.storeAll ⟨5, 2, 3⟩ fmtRaws).1 = [⟨1, 0, 1⟩, ⟨0, 0, 1⟩] := by decide
 
 theorem fmt_tiles : Tiles2 demoDict 1024 fmtX fmtBlocks 0 ⟨5, 2, 3⟩ := by
-  simp only [fmtBlocks, Tiles2, BlockRT.LitOK, BlockRT.CodesOK, BlockRT.okOf]
+  simp only [fmtBlocks, Tiles2, BlockRT.LitOK]
   decide +kernel
 
 /-- `dict_roundtrip` applies to the formatted dictionary: header dictID = 77 = the dictionary's ID, checksum on -/
@@ -557,5 +560,39 @@ example : (match Dict.loadD fmtDict with
 
 example : Frame.decompressAll (serializeFrameFrom ⟨5, 2, 3⟩ (demoArgs false 77) fmtBlocks fmtX) demoD 8 {} = .error .dictWrong :=
   wrong_dict_refused_full _ _ (demo_ok false 77 (by decide)).1 rfl (by decide) rfl demoD (by decide) _ _ 8 {} rfl
+
+/-! ### non-vacuity, `set_compressed` and `set_repeat` under the formatted dictionary: the 26-byte input "XbcdYZcdYZcd!" "Pcd!QR!QR!QR?"
+as two compressed blocks.  Block 1 DESCRIBES its three tables (`BlockRT.demoFse`: FSE_writeNCount of LL {1, 2}, OF {0, 2}, ML {0, 3});
+its first match is the dictionary's repeat offset 5 reaching into the dictionary ("bcd").  Block 2 REPEATS the tables of block 1
+(modes byte 0xfc) - NOT the tables of the dictionary, which the decoder holds (`fseEntropy = 1` after ZSTD_loadDEntropy) but which a
+frame of this writer never asks for: the block list starts with `prev = none`, so `Tiles2` only admits `set_repeat` behind a block
+of the same frame that has sequences.  ZSTD_decompress_usingDict (v1.5.7) regenerates the input from the 42 bytes below. -/
+
+def rptX : ByteArray := ofList [0x58, 0x62, 0x63, 0x64, 0x59, 0x5a, 0x63, 0x64, 0x59, 0x5a, 0x63, 0x64, 0x21,
+  0x50, 0x63, 0x64, 0x21, 0x51, 0x52, 0x21, 0x51, 0x52, 0x21, 0x51, 0x52, 0x3f]
+def rptBlocks : List BlockChoice2 :=
+  [.compressed .raw BlockRT.demoFse (ofList [0x58, 0x59, 0x5a, 0x21]) [⟨1, 0, 5⟩, ⟨2, 3, 4⟩],
+   .compressed .raw BlockRT.demoRep (ofList [0x50, 0x51, 0x52, 0x3f]) [⟨1, 0, 4⟩, ⟨2, 3, 3⟩]]
+
+theorem rpt_tiles : Tiles2 demoDict 1024 rptX rptBlocks 0 ⟨5, 2, 3⟩ := by
+  simp only [rptBlocks, Tiles2, BlockRT.LitOK]
+  refine ⟨?_, ?_, ?_, ?_, ?_, ?_, ?_, ?_, ?_, ?_, ?_, ?_, ?_, ?_, ?_, ?_, ?_, ?_, ?_⟩
+  all_goals decide +kernel
+
+/-- `dict_roundtrip` applies: described and repeated tables, formatted dictionary, checksum on -/
+theorem rpt_roundtrip : ∃ D, Dict.loadD fmtDict = .ok D ∧
+    ∃ tr, Frame.decompressAll (serializeFrameDict D (demoArgs true 77) rptBlocks rptX) D 26 {} = .ok (rptX, tr) := by
+  obtain ⟨D, hl, hid, hc, hr⟩ := fmt_load
+  refine ⟨D, hl, dict_roundtrip fmtDict D hl (demoArgs true 77) rptBlocks rptX ?_ 26 (by decide) {} rfl rfl⟩
+  obtain ⟨k1, -, k3, k4, -⟩ := demo_ok true 77 (by decide)
+  refine ⟨k1, Or.inr (Or.inr hid.symm), k3, (fun h => by cases h), ?_⟩
+  have hb : FrameRT.blockSizeMaxOf (demoArgs true 77) = 1024 := by decide
+  rw [hb, hc, hr]
+  exact rpt_tiles
+
+example : (serializeFrameFrom ⟨5, 2, 3⟩ (demoArgs false 77) rptBlocks rptX).data =
+    #[0x28, 0xb5, 0x2f, 0xfd, 0x01, 0x00, 0x4d, 0x9c, 0x00, 0x00, 0x20, 0x58, 0x59, 0x5a, 0x21, 0x02, 0xa8, 0x10, 0x88, 0x1f, 0x10, 0x83,
+      0x0f, 0x10, 0xa3, 0x0f, 0x3f, 0x84, 0x10, 0x55, 0x00, 0x00, 0x20, 0x50, 0x51, 0x52, 0x3f, 0x02, 0xfc, 0x3e, 0x84, 0x10] := by
+  decide +kernel
 
 end ZstdVerif.DictRT
